@@ -50,9 +50,10 @@ Definition kstep (c : kcmd) (m : sstore) : sstore * reply :=
            end
   | KCsetrange k off v =>
       let old := match aget bytes_eqb k m with Some b => b | None => [] end in
-      match v with
+      if (off <? 0) || (max_value_size <? off) then (m, RErr)
+      else match v with
       | [] => if negb (key_ok k) then (m, RErr) else (m, RInt (blen old))
-      | _ => if (off <? 0) || (max_value_size <? blen v + off) || negb (key_ok k) then (m, RErr)
+      | _ => if (max_value_size <? blen v + off) || negb (key_ok k) then (m, RErr)
              else let nv := set_range old (Z.to_nat off) v in (aput bytes_eqb k nv m, RInt (blen nv))
       end
   | KCdel ks => let '(m', n) := del_keys ks m in (m', RInt n)
